@@ -144,7 +144,12 @@ def tok_string(tokens, ref):
 
 
 def hdr(cred):
-    return S.basic_header(*cred) if cred else {}
+    # [id, None]: the client only NAMES itself (client_id in the form, no secret anywhere) -- not an authentication for these clients
+    return S.basic_header(*cred) if cred and cred[1] is not None else {}
+
+
+def named_only(cred, form):
+    return dict(form, client_id=cred[0]) if cred and cred[1] is None else form
 
 
 def run_impl(ops, transport="neutral"):
@@ -162,7 +167,7 @@ def run_impl(ops, transport="neutral"):
                     form = {"grant_type": "password", "username": o["user"], "password": "pw"} if o["password"] else {"grant_type": "client_credentials"}
                     if o.get("scope") is not None:
                         form["scope"] = o["scope"]
-                    st, body, _ = srv.create_token_response(S.HReq("POST", "https://as.example/token", form, hdr(o["cred"])))
+                    st, body, _ = srv.create_token_response(S.HReq("POST", "https://as.example/token", named_only(o["cred"], form), hdr(o["cred"])))
                     outs.append(token_out(tokens, st, body))
                 elif k == "refresh":
                     form = {"grant_type": "refresh_token"}
@@ -171,7 +176,7 @@ def run_impl(ops, transport="neutral"):
                         form["refresh_token"] = s
                     if o.get("scope") is not None:
                         form["scope"] = o["scope"]
-                    st, body, _ = srv.create_token_response(S.HReq("POST", "https://as.example/token", form, hdr(o["cred"])))
+                    st, body, _ = srv.create_token_response(S.HReq("POST", "https://as.example/token", named_only(o["cred"], form), hdr(o["cred"])))
                     outs.append(token_out(tokens, st, body))
                 elif k in ("revoke", "introspect"):
                     form = {}
@@ -181,7 +186,7 @@ def run_impl(ops, transport="neutral"):
                     if o.get("hint"):
                         form["token_type_hint"] = o["hint"]
                     name = "revocation" if k == "revoke" else "introspection"
-                    st, body, _ = srv.create_endpoint_response(name, S.HReq("POST", "https://as.example/" + name, form, hdr(o["cred"])))
+                    st, body, _ = srv.create_endpoint_response(name, S.HReq("POST", "https://as.example/" + name, named_only(o["cred"], form), hdr(o["cred"])))
                     if st != 200:
                         outs.append(["error", st, body.get("error")])
                     elif k == "revoke":
@@ -218,7 +223,7 @@ def token_out(tokens, st, body):
     return ["error", st, body.get("error")]
 
 
-CREDS = [["c1", "s1"], ["c2", "s2"], ["rs", "s3"], ["c1", "bad"], None]
+CREDS = [["c1", "s1"], ["c2", "s2"], ["rs", "s3"], ["c1", "bad"], None, ["c1", None]]
 HINTS = [None, "access_token", "refresh_token", "bogus"]
 
 
@@ -278,6 +283,11 @@ def check_seq(ctx, ops, tag):
     for o, x in zip(ops, got["outs"]):
         if x[0] == "escapes":
             ctx.violation("C09:escapes:%s:%s" % (o["op"], x[1]), "endpoint raised an unhandled exception", case)
+            continue
+        if o["op"] in ("issue", "refresh", "revoke", "introspect") and x[0] in ("token", "ok", "introspect") and \
+                not any(o.get("cred") == [c["id"], c["secret"]] for c in REG):
+            ctx.violation("C09:unauthenticated-accepted:%s" % o["op"], "a request without the client's valid credentials (none, a wrong secret, or only "
+                          "the client's name) was accepted at the %s endpoint" % ("token" if o["op"] in ("issue", "refresh") else o["op"]), case)
             continue
         if o["op"] in ("issue", "refresh") and x[0] == "token":
             owner[x[1]] = o["cred"][0]
